@@ -192,6 +192,27 @@ start :: fn do
     print(n)
 end
 '''})
+    # library functions called from inside the callback of a library function (the same one, or another): every call has its own state
+    out.append({"name": "list_nested_callbacks", "role": "list-operations-re-entered-from-their-own-callbacks", "dom": {"a": (0, 3), "b": (0, 3)}, "text": '''
+start :: fn do
+    xs :: [2, 3, ?a + 4, 7]
+    ys :: [?b + 4, 9, 10, 6]
+    has_multiple :: pu x: int -> bool do
+        ret (ys -> filter(pu y: int -> bool do div(y, x) * x == y end)) != []
+    end
+    print(xs -> filter(has_multiple))
+    print(xs -> filter(pu x: int -> bool do not has_multiple(x) end))
+    print(xs -> map(pu x: int -> [int] do ys -> map(pu y: int -> int do x * y end) end))
+    print(xs -> fold(0, pu x: int, acc: int -> int do acc + (ys -> fold(0, pu y: int, a2: int -> int do a2 + x * y end)) end))
+    print(xs -> filter(pu x: int -> bool do (xs -> filter(pu z: int -> bool do z < x end)) != [] end))
+    print(xs -> filter(pu x: int -> bool do (xs -> map(pu z: int -> int do z - x end)) != [0] end))
+    total := 0
+    xs -> for_each(fn x: int do
+        ys -> for_each(fn y: int do total += x + y end)
+    end)
+    print(total)
+end
+'''})
     out.append({"name": "math_helpers_int", "role": "math-helpers(int)", "dom": {"a": (0, 6), "b": (0, 6), "c": (0, 6)}, "text": '''
 start :: fn do
     a := ?a - 3
